@@ -269,6 +269,7 @@ class Run:
             )
             self._write_evidence(wall, failed=True)
             return 2
+        self.extra["unconfirmed_violations"] = len(unconfirmed)
         if unconfirmed:
             print(f"NOTE: {len(unconfirmed)} further violation(s) seen during the exploration did not replay on their own and are not reported")
         for idx, n in sorted(self.known_hits.items()):
